@@ -44,3 +44,14 @@ Proof.
   destruct (into_struct_ev evs) as [e| |]; try (now intros [= <-]).
   destruct (c_output c); [destruct create_ok|]; cbn [app]; intros H; inversion H; reflexivity.
 Qed.
+
+Lemma cli_source_example :
+  let a := {| a_parser := Some PSerdeXmlRs; a_derive := Some (s "Debug"); a_sort := Some XmlName; a_output := true |} in
+  let evs := [EStart (ROk (s "a")) [AOk (ROk (s "k"))]; EEnd] in
+  main_rs (resolve a) (RText evs) true = cli_run a (RText evs) true
+  /\ snd (main_rs (resolve a) (RText evs) true) = 0%N
+  /\ List.length (fst (main_rs (resolve a) (RText evs) true)) = 2%nat
+  /\ main_rs (resolve a) (RText evs) false = ([Stderr], 1%N)
+  /\ main_rs (resolve a) RFail true = ([Stderr], 1%N)
+  /\ main_rs (resolve a) (RText [EMisc]) true = ([Stderr], 1%N).
+Proof. vm_compute. repeat split. Qed.
